@@ -149,8 +149,8 @@ CHECKS = {
             "which it was first found superseded and on the CRL) pairs; "
             "the counters give the number of superseded entries found on "
             "CRLs."
-            " Wave 5: two more boundary scripts (random moves were withdrawn, "
-            "DESIGN section 10) move "
+            " Wave 5: two more boundary scripts (this check's random moves "
+            "were withdrawn, DESIGN section 10) move "
             "a CA to a SECOND publication server (another krill instance "
             "reached through the in-process transport hook H7) and back - a "
             "key roll whose keys publish at different servers - incl. the "
